@@ -100,7 +100,12 @@ pub fn evidence_base(prop: &str, tier: &str, seed: i64, level: &str) -> Value {
 /// The known findings file, loaded once per process.
 pub fn known_list() -> std::rc::Rc<Vec<Known>> {
     thread_local! {
-        static KNOWN: std::rc::Rc<Vec<Known>> = std::rc::Rc::new(load_known("/verif/known_findings.txt"));
+        static KNOWN: std::rc::Rc<Vec<Known>> = std::rc::Rc::new(load_known(&format!("{}/known_findings.txt", root())));
     }
     KNOWN.with(|k| k.clone())
+}
+
+/// Root of the verification tree (`/verif`, or a snapshot of it).
+pub fn root() -> String {
+    std::env::var("A10MC_ROOT").unwrap_or_else(|_| "/verif".to_string())
 }
